@@ -25,7 +25,7 @@ def mod_entry(cl):
     std = cl["std"]
     if b"verification failed" in std["stderr"]:
         cls = "hostile"
-    elif std["exit"] != 0 and not std["stderr"].startswith(b"Runtime error:"):
+    elif b"invalid .nvm format" in std["stderr"] or b"Failed to load" in std["stderr"]:
         cls = "junk"
     else:
         cls = "good"
@@ -138,12 +138,12 @@ def write_inputs(ctx, name, segs, mods):
     return tp, mp, max(n, 2)
 
 
-def run_tlc(ctx, bench, tp, mp, n, verify=True):
+def run_tlc(ctx, bench, tp, mp, n, verify=True, dropexit=False):
     P = bench.P
     env = dict(TRACE=tp, MODS=mp, MAXPAY=str(P["VMD_MAX_PAYLOAD"]), T_EXEC=str(P["VMD_MSG_LOAD_EXEC"]),
                T_PING=str(P["VMD_MSG_PING"]), T_STATUS=str(P["VMD_MSG_STATUS"]), T_PONG=str(P["VMD_MSG_PONG"]))
     r = tlc(ctx, "VmdTrace", "VmdTrace", workers=1, timeout=3000, env=env, deadlock=True,
-            constants={"N": str(n), "Verify": "TRUE" if verify else "FALSE"})
+            constants={"N": str(n), "Verify": "TRUE" if verify else "FALSE", "DropExit": "TRUE" if dropexit else "FALSE"})
     nev = sum(1 for _ in open(tp))
     at = None
     if r.violated:
@@ -176,21 +176,30 @@ def validate_files(ctx, bench, prop, name, daemons, mods, findings, stats, trace
     traces["events"] += nev
     if not r.violated:
         traces["validated"] += len(segs)
-        return tp, mp, n
+        return tp, mp, n, {}
     ev = first_unmatched(tp, at)
-    hostile_hashes = {m["h"] for m in mods if m["cls"] == "hostile"}
-    if allow_no_verify and r.violated == "Deadlock" and ev and ev.get("e") == "exec_begin":
-        # DESIGN 5.2: try the listed deviation switch VMD_NO_VERIFY (Verify = FALSE)
-        r2, _, at2 = run_tlc(ctx, bench, tp, mp, n, verify=False)
-        f = L.match_finding(findings, trigger="hostile_module", defect=["trace_rejected"], hostile_variant=None) or \
-            next((x for x in findings if x.get("match", {}).get("trigger") == "hostile_module"), None)
-        if not r2.violated and f:
-            ctx.known(f["id"], "session trace: exec_begin for a module the standalone verifier refuses (event %d); the trace is "
-                               "explained only with the deviation switch Verify = FALSE" % at)
-            stats["known"] += 1
-            traces["validated"] += len(segs)
-            traces["with_switch"] = traces.get("with_switch", 0) + len(segs)
-            return tp, mp, n
+    # DESIGN 5.2: attribution with the listed deviation switches, smallest set first; every switch in the accepted set
+    # must be needed (the run without it is rejected), and each must correspond to a known-findings entry
+    SW = {"VMD_NO_VERIFY": dict(verify=False), "VMD_DROPS_EXIT": dict(dropexit=True)}
+    known_sw = {}
+    for f in findings:
+        for name in f.get("match", {}).get("switches", []):
+            known_sw[name] = f
+    cands = [[k] for k in SW if k in known_sw] + ([list(SW)] if all(k in known_sw for k in SW) else [])
+    if r.violated == "Deadlock" and ev:
+        for names in cands:
+            kw = {}
+            for k in names:
+                kw.update(SW[k])
+            r2, _, at2 = run_tlc(ctx, bench, tp, mp, n, **kw)
+            if not r2.violated:
+                for k in names:
+                    ctx.known(known_sw[k]["id"], "session trace %s: event %s (%s) is explained only with the deviation switch %s" %
+                              (name, at, ev.get("e"), k))
+                stats["known"] += 1
+                traces["validated"] += len(segs)
+                traces.setdefault("with_switches", []).append(dict(trace=name, switches=names, first_unexplained_event=ev))
+                return tp, mp, n, kw
     traces["rejected"] += 1
     path = ctx.save_replay("trace_%s_%s.ndjson" % (name, sha(open(tp).read())), src=tp)
     ctx.save_replay(os.path.basename(path) + ".mods", src=mp)
@@ -261,7 +270,7 @@ def corruptions(tp, rng):
 
 
 def selftest(ctx, bench, accepted, rng, traces, how_many):
-    tp, mp, n = accepted
+    tp, mp, n, kw = accepted
     caught, tried = 0, []
     for name, ls in corruptions(tp, rng)[:how_many]:
         d = ctx.dir("trc_%d" % len(tried))
@@ -269,7 +278,7 @@ def selftest(ctx, bench, accepted, rng, traces, how_many):
         with open(cp, "w") as f:
             for e in ls:
                 f.write(json.dumps(e, separators=(",", ":")) + "\n")
-        r, _, at = run_tlc(ctx, bench, cp, mp, n)
+        r, _, at = run_tlc(ctx, bench, cp, mp, n, **kw)
         tried.append(dict(corruption=name, rejected=bool(r.violated), how=r.violated, at_event=at))
         caught += bool(r.violated)
     traces["selftest"] = tried
